@@ -13,3 +13,4 @@ package system
 //@   requires property == "name" ==> strOps(operator)
 //@   requires property == "bucket" ==> strOps(operator)
 //@   requires property == "id" ==> ordOps(operator)
+//@   ensures err != nil ==> isErr(err, common.ErrInvalidQuery) || isErr(err, ErrMissingFeature)
